@@ -177,7 +177,7 @@ def ref_diags(cache, d, text):
     return cache[text]
 
 
-def history(rep, ctx, work, k, rng, cache, d):
+def history(rep, ctx, work, k, rng, cache, d, binary=None, extra_env=None):
     uris = [f'file://{d}/{n}.js' for n in ('u1', 'u2', 'u3')][:rng.randint(1, 3)]
     state = {u: {'open': False, 'version': 0, 'best': None} for u in uris}
     events = []
@@ -202,7 +202,7 @@ def history(rep, ctx, work, k, rng, cache, d):
     delays = None
     if rng.random() < 0.6:
         delays = f'lsp.open.before_insert={rng.choice([0, 2000, 20000])},lsp.change.before_lookup={rng.choice([0, 2000, 20000])},lsp.change.before_publish={rng.choice([0, 1, 3, 8])};seed={rng.randint(1, 10**6)}'
-    play(rep, work, d, events, uris, state, policy, delays, k, rng, cache)
+    play(rep, work, d, events, uris, state, policy, delays, k, rng, cache, binary, extra_env)
 
 
 def replay_history(rep, work, d, events, policy, delays, k):
@@ -222,13 +222,13 @@ def replay_history(rep, work, d, events, policy, delays, k):
     play(rep, work, d, events, uris, state, policy, delays, f'r{k}', random.Random(k), {})
 
 
-def play(rep, work, d, events, uris, state, policy, delays, k, rng, cache):
-    env = {}
+def play(rep, work, d, events, uris, state, policy, delays, k, rng, cache, binary=None, extra_env=None):
+    env = dict(extra_env or {})
     log = os.path.join(work, f'lsplog-{k}.jsonl')
     env['AST_GREP_VERIF_LOG'] = log
     if delays:
         env['AST_GREP_VERIF_DELAYS'] = delays
-    l = Lsp(d, env=env, folders_policy=policy)
+    l = Lsp(d, env=env, folders_policy=policy, binary=binary)
     replay = {'monitor': 'py:c09', 'part': 'history', 'events': events, 'policy': policy, 'delays': env.get('AST_GREP_VERIF_DELAYS')}
     try:
         l.initialize()
@@ -337,9 +337,49 @@ def run(ctx):
     rules = [dict(RULES[0], id='h0', language='JavaScript', severity='error'), dict(RULES[1], id='h1', language='JavaScript'), dict(RULES[3], id='h2', language='JavaScript', severity='warning')]
     write_project(d, rules, 'foo(1)\n')
     cache = {}
-    n_hist = 600 if ctx.thorough else 40
-    for k in range(n_hist):
-        history(rep, ctx, work, k, ctx.rng, cache, d)
+    n_hist = 1200 if ctx.thorough else 96
+    import concurrent.futures as cf, random
+
+    def one_hist(k, binary=None, extra_env=None):
+        sub = new_report(); sub['_nt'] = set(); sub['_inter'] = set()
+        history(sub, ctx, work, k, random.Random(f'C09-{ctx.seed}-{k}'), cache, d, binary, extra_env)
+        return sub
+
+    def merge_subs(subs):
+        for sub in subs:
+            rep['_nt'] |= sub.pop('_nt'); rep['_inter'] |= sub.pop('_inter')
+            rep['evaluations'] += sub['evaluations']; rep['inconclusive'] += sub['inconclusive']
+            for kk, v in sub['counters'].items():
+                count(rep, kk, v)
+            for v in sub['violations']:
+                add_violation(rep, v['signature'], v['what'], v['replay'])
+            rep['notes'] += [x for x in sub['notes'] if x not in rep['notes']][:5]
+    with cf.ThreadPoolExecutor(max_workers=8) as ex:
+        merge_subs(list(ex.map(one_hist, range(n_hist))))
+    if ctx.thorough or os.environ.get('VERIF_SANITIZE'):
+        # the same histories on a ThreadSanitizer build of the binary (the server runs handlers on several threads)
+        import sanitize
+        ok, msg = sanitize.build_tsan()
+        if not ok:
+            rep['inconclusive'] += 1
+            rep['notes'].append('tsan: build unavailable: ' + msg[-300:])
+        else:
+            logbase = os.path.join(work, 'tsan-lsp')
+            env = sanitize.tsan_env(logbase)
+            with cf.ThreadPoolExecutor(max_workers=8) as ex:
+                merge_subs(list(ex.map(lambda k: one_hist(100000 + k, sanitize.SG_TSAN, env), range(64))))
+            count(rep, 'tsan_histories', 64)
+            for tr in sanitize.collect_tsan(logbase):
+                sites = sanitize.classify_tsan(tr)
+                if sites:
+                    count(rep, 'tsan_reports_ast_grep')
+                    add_violation(rep, f"C09/tsan/{tr['kind'].replace(' ', '-')}/{'|'.join(sorted(set(sites)))}", f"ThreadSanitizer {tr['kind']} in the language server: {tr['summary']}",
+                                  {'monitor': 'py:c09', 'part': 'tsan', 'stacks': [st[:10] for st in tr['stacks'][:2]]})
+                else:
+                    count(rep, 'tsan_reports_third_party')
+                    note = f"tsan third-party observation: {tr['kind']}: {tr['summary'][:160]}"
+                    if note not in rep['notes'] and len(rep['notes']) < 20:
+                        rep['notes'].append(note)
     count(rep, 'histories', n_hist)
     count(rep, 'front_end_cases', n_front)
     rep['counters']['distinct_server_side_interleavings'] = len(rep.pop('_inter'))
